@@ -58,7 +58,11 @@ def main():
     ap.add_argument("--suite", action="store_true")
     ap.add_argument("--only")
     ap.add_argument("--checks-runs", type=int, default=0)
+    ap.add_argument("--round", type=int, default=1, help="2: read /tmp/wt/out2 and store variants A,B as C,D")
     a = ap.parse_args()
+    global OUT
+    if a.round == 2:
+        OUT = "/tmp/wt/out2"
     only = set(a.only.split(",")) if a.only else None
     os.makedirs(SEEDED, exist_ok=True)
     summary = []
@@ -67,7 +71,7 @@ def main():
             src_dir = os.path.join(OUT, prop, variant)
             if not os.path.isfile(os.path.join(src_dir, "patch.diff")) or not os.path.isfile(os.path.join(src_dir, "demo.py")):
                 continue
-            sid = f"{prop}-{variant}"
+            sid = f"{prop}-{variant}" if a.round == 1 else f"{prop}-{dict(A='C', B='D').get(variant, variant + '2')}"
             if only and sid not in only:
                 continue
             dst = os.path.join(SEEDED, sid)
@@ -91,7 +95,7 @@ def main():
                 meta.update({
                     "id": sid, "property": prop, "summary": agent_meta.get("summary"), "needs": agent_meta.get("needs"),
                     "files": agent_meta.get("files"), "why_tests_pass": agent_meta.get("why_tests_pass"),
-                    "origin": "independent sub-agent given only the property text and its own scratch worktree",
+                    "origin": "independent sub-agent given only the property text and its own scratch worktree" + (" (second round, on the repaired tree)" if a.round == 2 else ""),
                     "rebased_on": sh("git -C /repo rev-parse --short HEAD").stdout.strip(),
                     "demo_on_current_tree": {"exit": rc0, "last_line": out0},
                     "demo_with_patch": {"exit": rc1, "last_line": out1},
